@@ -127,9 +127,10 @@ def _contains_return(st) -> bool:
 class _Lower:
     """return lowering of a helper body"""
 
-    def __init__(self, ret: str, done: str):
+    def __init__(self, ret: str, done: str, unpack=None):
         self.ret, self.done = ret, done
         self.uses_done = False
+        self.unpack = unpack          # names the caller unpacks the result into: `return a, b` becomes `x = a; y = b`
 
     def _assign(self, name, value):
         return ast.Assign(targets=[ast.Name(id=name, ctx=ast.Store())], value=value, lineno=0, col_offset=0)
@@ -138,7 +139,11 @@ class _Lower:
         out = []
         for i, st in enumerate(stmts):
             if isinstance(st, ast.Return):
-                out.append(self._assign(self.ret, st.value if st.value is not None else ast.Constant(value=None)))
+                if self.unpack is not None:
+                    for nm, el in zip(self.unpack, st.value.elts):
+                        out.append(self._assign(nm, el))
+                else:
+                    out.append(self._assign(self.ret, st.value if st.value is not None else ast.Constant(value=None)))
                 if in_loop:
                     self.uses_done = True
                     out.append(self._assign(self.done, ast.Constant(value=True)))
@@ -466,11 +471,30 @@ class Inliner:
         has_value = any(isinstance(n, ast.Return) and n.value is not None for st in body for n in ast.walk(st))
         if not any(_contains_return(st) for st in body):
             return pre + body, None
+        # `a, b, c = helper(..)` where every return of the helper is a tuple of that many elements which do not read a, b, c: the
+        # elements are assigned to a, b, c where the helper returned them (keeps per-element provenance)
+        unpack = None
+        if isinstance(stmt, ast.Assign) and len(stmt.targets) == 1 and isinstance(stmt.targets[0], ast.Tuple) and stmt.value is call \
+                and all(isinstance(t_, ast.Name) for t_ in stmt.targets[0].elts):
+            names_ = [t_.id for t_ in stmt.targets[0].elts]
+            rets_ = [r_ for st_ in body for r_ in _returns_of(st_)]
+            if rets_ and len(set(names_)) == len(names_) and all(
+                    isinstance(r_.value, ast.Tuple) and len(r_.value.elts) == len(names_) and not any(
+                        isinstance(x_, ast.Name) and x_.id in names_ for el_ in r_.value.elts[1:] for x_ in ast.walk(el_))
+                    and not any(isinstance(el_, ast.Starred) for el_ in r_.value.elts) for r_ in rets_) \
+                    and not (set(names_) & stored) and isinstance(body[-1], ast.Return):
+                unpack = names_
         # single trailing `return e`
-        if isinstance(body[-1], ast.Return) and not any(_contains_return(st) for st in body[:-1]):
+        if isinstance(body[-1], ast.Return) and not any(_contains_return(st) for st in body[:-1]) and unpack is None:
             return pre + body[:-1], (body[-1].value if body[-1].value is not None else ast.Constant(value=None))
-        lw = _Lower(ret, done)
+        if unpack is not None and isinstance(body[-1], ast.Return) and not any(_contains_return(st_) for st_ in body[:-1]):
+            return pre + body[:-1] + [ast.Assign(targets=[ast.Name(id=n_, ctx=ast.Store())], value=e_, lineno=0, col_offset=0)
+                                       for n_, e_ in zip(unpack, body[-1].value.elts)], "DROP"
+        lw = _Lower(ret, done, unpack)
         lowered = lw.lower(body)
+        if unpack is not None:
+            init_ = [ast.Assign(targets=[ast.Name(id=done, ctx=ast.Store())], value=ast.Constant(value=False), lineno=0, col_offset=0)] if lw.uses_done else []
+            return pre + init_ + lowered, "DROP"
         init = [ast.Assign(targets=[ast.Name(id=ret, ctx=ast.Store())], value=ast.Constant(value=None), lineno=0, col_offset=0)]
         if lw.uses_done:
             init.append(ast.Assign(targets=[ast.Name(id=done, ctx=ast.Store())], value=ast.Constant(value=False), lineno=0, col_offset=0))
@@ -606,7 +630,7 @@ class Inliner:
                 for n in new_stmts:
                     for x in ast.walk(n):
                         x._inlined_from = helper.name
-                if is_tail or (isinstance(st, ast.Expr) and st.value is call):
+                if is_tail or (isinstance(st, ast.Expr) and st.value is call) or result == "DROP":
                     stmts[i:i + 1] = new_stmts or [ast.Pass(lineno=st.lineno, col_offset=0)]
                 else:
                     _replace_expr(st, call, result if result is not None else ast.Constant(value=None))
